@@ -45,6 +45,10 @@ CLAIMED = {
    text='Machine-checked proof (Lean 4) of the binding rules on the model of context.rs / pass 1 / pass 2 / get_r8: lookup_case and alias_case (labels, .equ, .set, pc and .def aliases are matched without regard to letter case), set_latest (after an assignment every spelling of the name yields the value just assigned), def_binds / undef_unbinds (alias is the register from .def to .undef), alias_same_bytes (for EVERY mnemonic, operand position and context an instruction using a live alias is byte-identical to one using the register), undefined_is_error (an unknown name never evaluates — in particular not to 0), dead_alias_is_bad, and (C02) the label step: a name already taken fails with its line. Tie: differential run of random symbol programs; oracle = the generator\'s independent binder: build(P) must equal build(hand-resolved P), and every mutant (single definition deleted, duplicate label, alias after .undef, label/.equ clash) must fail. Two genuine defects found by this check were repaired (label vs .equ clash, duplicate .equ).',
    note='Trusted: Lean kernel, the generator\'s binder (documented rules), model tied by correspondence. The global statement (every reference of every program resolves to its unique definition) is not one theorem; it is the composition of the step theorems plus the differential/mutant run. .define flags are case-sensitive by design of the tool (outside the property).',
    technique='Lean 4 theorems on the symbol-table steps + differential correspondence with hand-resolved programs and must-fail mutants', ref='6/C10'),
+ 'C11': dict(
+   text='Machine-checked proof (Lean 4): file_step (processing a path = reading the first documented candidate that exists and running THE SAME line loop over its lines from the includer\'s state; the resulting state is what the includer continues with), include_step, resolvePath_spec (the opened path is the first existing one of: as written, dir/path over the include set in order), missing_file_named, found_when_present, own_directory_searched, caller_directories_searched, includepath_step (relative to the file containing the directive), writeBack_keeps, exit_step / exit_ends_this_file. Tie: differential run on generated directory trees (written to a scratch directory, and handed to the model as an abstract file system); oracle: build_file(tree) = build_str(flattened text), a missing file fails naming it. One genuine defect repaired (.includepath inside an included file was lost), one recorded (constructs left open across the boundary).',
+   note='Trusted: Lean kernel; OS behaviour (exists/open/relative paths, no symlinks) is a parameter of the model (Model.Fs) and is exercised only through the correspondence run. The global paste statement (tree = flattened text for every split) is not one theorem — it does not hold for splits that leave a conditional or macro open across a file boundary (known finding); it is the composition of the step theorems plus the differential run over balanced splits.',
+   technique='Lean 4 theorems on the include/file steps and path resolution + differential correspondence on generated directory trees (tree build vs flattened build)', ref='6/C11'),
  'C12': dict(
    text='Machine-checked proof (Lean 4): Gen obligation devices_match_partdefs (every shipped includes/*def.inc that names a device of the table declares exactly the four capacities the table enforces; table re-extracted by executing DEVICES, part files re-parsed, on every run); build_fits / limits_exact (a build succeeds iff code <= 2*flash words, eeprom <= eeprom bytes, RAM extent <= RAM size of the device selected, and reports that device\'s sizes); pass1_within; unknown/second device are errors; documented defaults. Tie: exhaustive differential run over every device x 3 memories x {-1,0,+1} x ways of filling.',
    note='Trusted: Lean kernel, static parser of the part files, hand-written model of builder/mod.rs + pass1 tied by correspondence; for devices without a part file the expected capacity is the code\'s own row.',
